@@ -1,5 +1,6 @@
 //! `harness run`: one op line in (stdin), exactly one result line out (stdout). See PROTOCOL.md.
 
+mod alloc_count;
 mod canon;
 mod ops;
 
